@@ -12,7 +12,10 @@ Open Scope string_scope.
 Definition bs (l : list N) : string :=
   fold_right (fun n s => String (ascii_of_N n) s) EmptyString l.
 
-Inductive mode := MStream | MTxn | MHttp | MProxy.
+Inductive mode := MStream | MTxn | MHttp | MProxy | MSource.
+
+(** one page read by an HTTPDatasetSource object: its tokens and what ReadEntities did with it *)
+Record page := { p_toks : list token; p_eof : bool; po_outcome : N; po_ents : list ent }.
 
 Record tcase := {
   c_mode : mode;
@@ -24,6 +27,7 @@ Record tcase := {
   c_has2 : bool;              (* MHttp: a second POST was made (after a restart of the hub) before the GET *)
   c_post2 : list token;
   c_post2_eof : bool;
+  c_pages : list page;        (* MSource: the pages one source object read, in order *)
   (* observed on the implementation *)
   o_outcome : N;              (* 0 ok | 1 err | 2 panic | other *)
   o_groups : list (string * list ent);  (* MStream/MHttp: one group "" = emitted entities; MTxn: per dataset *)
@@ -201,6 +205,26 @@ Definition proxy_matches (c : tcase) (p : res string * list ent) : bool :=
   && leqb name_eqb (map e_id passed) (map e_id (all_emitted (o_groups c)))
   && match r with Ok s => String.eqb s (o_token c) | _ => true end.
 
+(** MSource: HTTPDatasetSource.ReadEntities, several pages through one source object; the continuation
+    element is consumed by the source, everything else goes to the pipeline *)
+(** the source hands complete batches ([source_batch] entities, the driver asks for 3) to the pipeline
+    while the page is being parsed and the remainder only after a successful parse *)
+Definition source_batch : nat := 3.
+Definition source_passed (payload : list ent) (o : outcome) : list ent :=
+  match o with
+  | OOk => payload
+  | _ => firstn (Nat.mul (Nat.div (List.length payload) source_batch) source_batch) payload
+  end.
+Fixpoint pages_match (pred : list (list ent * outcome)) (ps : list page) : bool :=
+  match pred, ps with
+  | [], [] => true
+  | (es, o) :: pred', p :: ps' =>
+    N.eqb (out_code o) (po_outcome p)
+    && leqb ent_eqb (source_passed (filter (fun e => negb (is_cont e)) es) o) (po_ents p)
+    && pages_match pred' ps'
+  | _, _ => false
+  end.
+
 (** [pc]: the proxy's token assertion is checked *)
 Definition agree (v : variant) (pc : bool) (c : tcase) : bool :=
   match c_mode c with
@@ -210,6 +234,7 @@ Definition agree (v : variant) (pc : bool) (c : tcase) : bool :=
              && http_matches (negb (strict v)) c (run_stream v (c_post c) (c_post_eof c))
                                                    (run_stream v (c_post2 c) (c_post2_eof c))
   | MProxy => proxy_matches c (proxy_page v pc (fuel_for (c_toks c)) (c_eof c) (c_toks c))
+  | MSource => pages_match (read_pages false v [] (map (fun p => (p_toks p, p_eof p)) (c_pages c))) (c_pages c)
   end.
 
 (** the executable spec S on the implementation's own observation:
@@ -224,6 +249,7 @@ Definition spec_ok (c : tcase) : bool :=
   | MHttp => obs_matches c false (run_spec (c_toks c) (c_eof c))
              && http_matches false c (run_spec (c_post c) (c_post_eof c)) (run_spec (c_post2 c) (c_post2_eof c))
   | MProxy => proxy_matches c (proxy_page fixed true (fuel_for (c_toks c)) (c_eof c) (c_toks c))
+  | MSource => pages_match (read_pages false fixed [] (map (fun p => (p_toks p, p_eof p)) (c_pages c))) (c_pages c)
   end.
 
 Definition v_types : variant := {| chk_types := true; skip_unknown := false; strict := false |}.
